@@ -622,9 +622,10 @@ def sync_jobs(
         exclude = []
     elif not isinstance(exclude, list):
         exclude = [exclude]
-    exclude.append(src.FN_STATE_POINT)
+    # The exclude patterns are regular expressions matched from the start of the name.
+    exclude.append(re.escape(src.FN_STATE_POINT) + "$")
     if doc_sync != DocSync.COPY:
-        exclude.append(src.FN_DOCUMENT)
+        exclude.append(re.escape(src.FN_DOCUMENT) + "$")
 
     if type(dry_run) is _FileModifyProxy:
         proxy = dry_run
